@@ -5,6 +5,7 @@
 From Coq Require Import List String Ascii Bool ZArith Arith.
 Import ListNotations.
 From BD.DagStore Require Import Model.
+From BD.Api Require Import Model.
 
 Record obs := mkObs {
   o_res : nat; o_out : list string; o_errs : nat;
@@ -42,19 +43,40 @@ Definition world_diff (w : world) (o : obs) : nat :=
   else if negb (set_eqb String.eqb (w_flags w) (o_flags o)) then 5
   else 0.
 
+(* the operations of a case: the client / store level ones, and the same through the API handler
+   (DELETE /dags/{id}; POST action rename / save; GET details) - result = HTTP code there *)
+Inductive xop :=
+| XOp (o : op)
+| XADelete (id : string)
+| XARename (id value : string)
+| XASave (id text : string)
+| XADetails (id : string).
+
 Section Replay.
   Variable valid : bytes -> bool.
+  Variable graph_ok : bytes -> bool.
   Variable meta_ok : bytes -> bool.
   Variable dir : string.
 
-  Definition is_list (o : op) : bool := match o with OList => true | _ => false end.
+  Definition is_list (o : xop) : bool := match o with XOp OList => true | _ => false end.
 
-  Fixpoint replay (w : world) (i : nat) (l : list (op * obs)) : option (nat * nat) :=
+  Definition xstep (w : world) (x : xop) : world * nat * list string :=
+    match x with
+    | XOp o => let '(w', rs, out) := step valid meta_ok dir w o in (w', res_code rs, out)
+    | XADelete id => let '(c, a') := delete valid graph_ok meta_ok dir (mkA w []) id in (a_w a', c, [])
+    | XARename id v =>
+        let '(c, a', _) := post valid graph_ok meta_ok dir true (mkA w []) id (mkBody (Some "rename"%string) v "" "" "") in (a_w a', c, [])
+    | XASave id t =>
+        let '(c, a', _) := post valid graph_ok meta_ok dir true (mkA w []) id (mkBody (Some "save"%string) t "" "" "") in (a_w a', c, [])
+    | XADetails _ => (w, 200, [])
+    end.
+
+  Fixpoint replay (w : world) (i : nat) (l : list (xop * obs)) : option (nat * nat) :=
     match l with
     | [] => None
     | (o, ob) :: r =>
-        let '(w', rs, out) := step valid meta_ok dir w o in
-        if negb (Nat.eqb (res_code rs) (o_res ob)) then Some (i, 1)
+        let '(w', code, out) := xstep w o in
+        if negb (Nat.eqb code (o_res ob)) then Some (i, 1)
         else if negb (set_eqb String.eqb out (o_out ob)) then Some (i, 2)
         else if is_list o && negb (Nat.eqb (list_errs meta_ok dir w) (o_errs ob)) then Some (i, 6)
         else match world_diff w' ob with
@@ -66,17 +88,17 @@ End Replay.
 
 Definition in_ids (ids : list string) (t : bytes) : bool := existsb (String.eqb t) ids.
 
-Fixpoint mismatches_from (valid_ids meta_ids : list string) (dir : string) (k : nat)
-         (cs : list (list (op * obs))) : list (nat * nat * nat) :=
+Fixpoint mismatches_from (valid_ids graph_ids meta_ids : list string) (dir : string) (k : nat)
+         (cs : list (list (xop * obs))) : list (nat * nat * nat) :=
   match cs with
   | [] => []
   | c :: r =>
-      match replay (in_ids valid_ids) (in_ids meta_ids) dir empty_world 0 c with
-      | None => mismatches_from valid_ids meta_ids dir (S k) r
-      | Some (i, code) => (k, i, code) :: mismatches_from valid_ids meta_ids dir (S k) r
+      match replay (in_ids valid_ids) (in_ids graph_ids) (in_ids meta_ids) dir empty_world 0 c with
+      | None => mismatches_from valid_ids graph_ids meta_ids dir (S k) r
+      | Some (i, code) => (k, i, code) :: mismatches_from valid_ids graph_ids meta_ids dir (S k) r
       end
   end.
-Definition mismatches valid_ids meta_ids dir := mismatches_from valid_ids meta_ids dir 0.
+Definition mismatches valid_ids graph_ids meta_ids dir := mismatches_from valid_ids graph_ids meta_ids dir 0.
 
 (* save-crash: what the model leaves after a kill before primitive step number n of UpdateSpec
    (0 = nothing done), as seen in the victim file: 0 old text, 1 empty, 2 new text, 3 something else;
